@@ -91,6 +91,14 @@ func init() {
 			ex.lastNow = mkBin("bvadd", ex.now(), a[0].(*Term))
 			return nil
 		},
+		"vConcretize": func(ex *Exec, fn *ssa.Function, a []Value) Value {
+			n := ex.concretizeInt(a[1].(*Term), 0, 1<<20)
+			k := ex.concretizeInt(a[0].(*Term), 0, n-1)
+			if k < 0 {
+				ex.end("PRUNED", "vConcretize: no value in range")
+			}
+			return mkConst(64, uint64(k))
+		},
 		"vEndPath": func(ex *Exec, fn *ssa.Function, a []Value) Value {
 			ex.end("PASS", "vEndPath")
 			return nil
